@@ -41,5 +41,6 @@ def paths(ctx):
 def install(CONFIG, EXTRA_TB, ASSUME):
     CONFIG.setdefault("C03", {}).setdefault("stages", []).append(paths)
     ASSUME.setdefault("C03", []).append(
-        "grouping keys that are nested paths or indexed selectors are outside the model (flat s_group); they are covered by the observational "
-        "stage group-by-path-keys: real code against a Go reading of the path (harness/r4_c03paths.go), key values scalar or NULL")
+        "grouping keys that are nested paths or indexed selectors are checked a second time, without the model, by the observational "
+        "stage group-by-path-keys: real code against a Go reading of the path (harness/r4_c03paths.go), key values scalar or NULL "
+        "(since round 5 the model has these keys too: stream group-by-path-keys of harness/r5_c03.go)")
